@@ -159,3 +159,25 @@ package scheduler
 //@   calls Scheduler.uuidLock#1: requires $0 == ent.Container.UUID
 //@   calls Scheduler.uuidLock#1: set locked = $r
 //@   calls ContainerQueue.Unlock#1: requires locked && $0 == ent.Container.UUID
+
+// fixStaleLocks (after a restart): only containers that the queue showed as
+// Locked and that no worker was running or starting - both in the same, last
+// look - are unlocked; nothing else is done to the queue or the pool.
+//@ iface WorkerPool.Subscribe
+//@   modifies nothing
+//@ iface WorkerPool.Unsubscribe
+//@   modifies nothing
+//@ func Scheduler.fixStaleLocks property C14 safety -bounds,-nil
+//@   only calls: WorkerPool.Subscribe WorkerPool.Unsubscribe time.NewTimer WorkerPool.CountWorkers WorkerPool.Running ContainerQueue.Entries ContainerQueue.Unlock
+//@   ghost rm map[string]time.Time = nil
+//@   ghost qd $dom[string] = nil
+//@   ghost qv $val[string]container.QueueEnt = nil
+//@   calls WorkerPool.Running#1: set rm = $r
+//@   calls ContainerQueue.Entries#1: set qd = dom($r0)
+//@   calls ContainerQueue.Entries#1: set qv = vals($r0)
+//@   # the list of containers to unlock is rebuilt from nothing in every round
+//@   # and receives only such containers; the unlock loop walks that list
+//@   calls append#1: requires $0 == stale && $1[0] == uuid
+//@   calls append#1: requires qd[uuid]
+//@   calls append#1: requires qv[uuid].Container.State == arvados.ContainerStateLocked
+//@   calls append#1: requires !has(rm, uuid)
